@@ -88,6 +88,8 @@ def expr(e, cx):
             kk = key if key.isidentifier() else json.dumps(key)
             parts.append(f"{kk}: {expr(ex, cx)}")
         return "{ " + ", ".join(parts) + " }" if parts else "{}"
+    if k == "objlitc":
+        return "{ " + ", ".join(f"[{expr(ke, cx)}]: {expr(ex, cx)}" for ke, _key, ex in e["ces"]) + " }"
     if k == "arrlit":
         return "[" + ", ".join(expr(x, cx) for x in e["xs"]) + "]"
     if k == "arrow":
@@ -102,6 +104,7 @@ def expr(e, cx):
             "paren": f"({inner})", "cond": f"(true ? {inner} : 0)", "seq": f"(0, {inner})",
             "or": f"({inner} || 0)", "nullish": f"({inner} ?? 0)", "tpl": f"`${{{inner}}}`",
             "and": f"(true && {inner})", "optchain": f"({inner})",
+            "tsnonnull": f"{inner}!", "tsas": f"{inner} as any",      # TypeScript-only wrappers (lang tsx)
         }[f]
     if k == "raw":               # escape hatch for grid cases: literal source text
         for n, spec in (e.get("env") or {}).items():
